@@ -60,7 +60,7 @@ def main():
         try:
             r = subprocess.run([sys.executable, DRV, '--fails', '--repo', WT], capture_output=True, text=True)
         finally:
-            subprocess.run(['git', '-C', WT, 'checkout', '--', '.'])
+            open(p, 'w').write(src)        # back to the worktree's state (the proposed fixes stay applied)
         fails = [l for l in r.stdout.split('\n') if l.startswith('FAIL ')]
         brk = [l for l in r.stdout.split('\n') if 'ANALYSIS-BROKEN' in l]
         print('== %s: exit %d, %d failing instance(s), %d broken' % (name, r.returncode, len(fails), len(brk)))
